@@ -27,10 +27,24 @@ import (
 )
 
 const (
-	repoDir  = "/repo"
 	verifDir = "/verif"
 	repoMod  = "github.com/circlefin/noble-cctp"
 )
+
+// repoDir is the tree under analysis (/repo; VERIF_REPO points development runs at a scratch
+// worktree), outBase holds scratch output and evidenceDir the evidence files.
+var (
+	repoDir     = envStr("VERIF_REPO", "/repo")
+	outBase     = envStr("VERIF_OUT", "/verif/out")
+	evidenceDir = envStr("VERIF_EVIDENCE", "/verif/evidence")
+)
+
+func envStr(name, def string) string {
+	if v := os.Getenv(name); v != "" {
+		return v
+	}
+	return def
+}
 
 var goEnv = []string{"GOWORK=off", "GOFLAGS=-mod=mod", "GOPROXY=off", "GOSUMDB=off", "GOTOOLCHAIN=local"}
 
@@ -194,8 +208,8 @@ func main() {
 	case "replay":
 		os.Exit(cmdReplay(os.Args[2]))
 	case "warm":
-		os.MkdirAll(filepath.Join(verifDir, "out"), 0o755)
-		ovPath := filepath.Join(verifDir, "out", "overlay.warm.json")
+		os.MkdirAll(outBase, 0o755)
+		ovPath := filepath.Join(outBase, "overlay.warm.json")
 		writeOverlayJSON(ovPath)
 		defer os.Remove(ovPath)
 		var pk []string
@@ -401,7 +415,7 @@ type replayOutcome struct {
 
 // runReplays runs every replay file of one harness package natively and returns the outcomes by file.
 func runReplays(dir string, files []string) (map[string]*replayOutcome, string, error) {
-	outDir := filepath.Join(verifDir, "out")
+	outDir := outBase
 	os.MkdirAll(outDir, 0o755)
 	ovPath := filepath.Join(outDir, fmt.Sprintf("overlay.%d.json", os.Getpid()))
 	if err := writeOverlayJSON(ovPath); err != nil {
